@@ -66,7 +66,7 @@ type c03Case struct {
 	body    int
 }
 
-var c03Plans = []string{"ok", "ok", "s503", "s404", "d60:ok", "stall", "close", "rst", "half", "d1200:ok", "b70000:ok", "ok:goaway", "d60:ok:goaway"}
+var c03Plans = []string{"ok", "ok", "s503", "s404", "d60:ok", "stall", "close", "rst", "half", "d1200:ok", "b70000:ok", "ok:goaway", "d60:ok:goaway", "ok:goawayk", "ok:goawayf", "stall:goawayk", "d40:stall:goawayk"}
 var c03RetryPlans = []string{"ok", "s503|ok", "s503|s503|ok", "s503", "stall|ok", "stall", "close|ok", "close", "rst|rst|ok", "d300:ok|ok", "d300:s503|d300:ok", "half|ok", "s503|stall", "stall|close|ok"}
 
 // plans for the retry route WITHOUT a per-try timeout: the retry is decided from the response status / reset reason only
